@@ -6,7 +6,7 @@
 namespace {
 
 // scratch: per consumer c: count at 0+c, values at 10+c*8.., exceptions at 4+c ; unblock result at 40 ; seq stamps for arrival/served order
-enum { S_CNT = 0, S_EXC = 4, S_VAL = 10, S_UNBLOCK = 40, S_ARRIVE = 44, S_SERVED = 48 };
+enum { S_CNT = 0, S_EXC = 4, S_VAL = 10, S_UNBLOCK = 40, S_ARRIVE = 44, S_SERVED = 48 };  // 3 consumers x 8 values fit below 40
 
 static void got(int c, int v) {
     int64_t *s = vrt_scratch();
@@ -28,7 +28,7 @@ static cocls::async<void> coro_consumer(cocls::queue<int> &q, int c, int npops) 
     vrt_scratch()[50 + c] = 1;
 }
 static void consumer_thread(cocls::queue<int> &q, int c, int kind, int npops) {
-    static const char *labels[] = {"cons0", "cons1"};
+    static const char *labels[] = {"cons0", "cons1", "cons2"};
     vrt_label(labels[c]);
     if (kind == CK_CORO) {
         coro_consumer(q, c, npops).detach();
@@ -46,16 +46,17 @@ static void consumer_thread(cocls::queue<int> &q, int c, int kind, int npops) {
 }
 
 static void q_scenario(int nprod, int ncons, const int *ckinds, bool unblock) {
+    // note: the 'done' flags of the consumers live at scratch 50..52
     int64_t *s = vrt_scratch();
     {
         auto q = std::make_unique<cocls::queue<int>>();
         int items = nprod * 2;
         int pops_each = items / ncons;
-        vstd::thread pt[2], ct[2], ut;
+        vstd::thread pt[3], ct[3], ut;
         for (int c = 0; c < ncons; c++) ct[c] = vstd::thread(consumer_thread, std::ref(*q), c, ckinds[c], pops_each);
         for (int p = 0; p < nprod; p++)
             pt[p] = vstd::thread([&, p] {
-                static const char *labels[] = {"prod0", "prod1"};
+                static const char *labels[] = {"prod0", "prod1", "prod2"};
                 vrt_label(labels[p]);
                 q->push(p * 10 + 1);
                 q->push(p * 10 + 2);
@@ -76,10 +77,10 @@ static void q_scenario(int nprod, int ncons, const int *ckinds, bool unblock) {
         }
         vrt_label("main");
         // every pushed item is delivered to exactly one pop or still waits in the queue
-        int seen[2][3] = {{0, 0, 0}, {0, 0, 0}};
+        int seen[3][3] = {{0, 0, 0}, {0, 0, 0}, {0, 0, 0}};
         int delivered = 0, excs = 0;
         for (int c = 0; c < ncons; c++) {
-            int last_of[2] = {0, 0};
+            int last_of[3] = {0, 0, 0};
             excs += (int)s[S_EXC + c];
             for (int k = 0; k < s[S_CNT + c]; k++) {
                 int v = (int)s[S_VAL + c * 8 + k];
@@ -100,7 +101,7 @@ static void q_scenario(int nprod, int ncons, const int *ckinds, bool unblock) {
             VRT_CHECK(excs == (s[S_UNBLOCK] == 1 ? 1 : 0), "q/unblock-mismatch", "unblock_pop returned %s but %d pops ended with its exception", s[S_UNBLOCK] == 1 ? "true" : "false", excs);
         } else
             VRT_CHECK(excs == 0, "q/unexpected-exception", "%d pops failed", excs);
-        vrt_outcome("c0=%ld c1=%ld exc=%d left=%d", (long)s[S_CNT], (long)s[S_CNT + 1], excs, remaining);
+        vrt_outcome("c0=%ld c1=%ld c2=%ld exc=%d left=%d", (long)s[S_CNT], (long)s[S_CNT + 1], (long)s[S_CNT + 2], excs, remaining);
     }
 }
 
@@ -175,6 +176,16 @@ VRT_REGISTER(reg_queue) {
                             q_scenario(np, nc, ck, ub != 0);
                         });
                     }
+    // up to three producers and three consumers (thorough tier, small bound)
+    for (int nc = 1; nc <= 3; nc++)
+        for (int mix = 0; mix < 2; mix++) {
+            if (6 % nc) continue;
+            std::string name = "q_p3_c" + std::to_string(nc) + (mix ? "_mixed" : "_block");
+            vrt::add(name, [=] {
+                int ck[3] = {CK_BLOCK, mix ? CK_CORO : CK_BLOCK, CK_BLOCK};
+                q_scenario(3, nc, ck, false);
+            });
+        }
     for (int limit = 1; limit <= 2; limit++)
         for (int np = 1; np <= 2; np++)
             for (int ck = 0; ck < 2; ck++) {
